@@ -710,7 +710,7 @@ func c08Spec(r *rng.R, i int) *crSpec {
 }
 
 func runC08(c *Ctx) {
-	c.Res.Rule = "per workload (80 marker batches incl. large-batch writes, explicit transactions - discarded after a failed Commit, as documented - and CompactRange; tiny buffers; background work settles between client calls so that operation order repeats): a fault-free run records every storage operation as (kind x file type x client call in progress), then the workload is re-run once per fault plan: the k-th operation of a (kind, type) fails, without effect or with effect (bytes written / file synced / created / removed / CURRENT set although an error is returned), singly, as a burst of 2-5 consecutive failures, or as a sampled pair, or combined with removes of one file type that keep failing; phase run = armed after Open, phase reopen = armed during a reopen of the populated DB. Quick takes the first, the last and a random position of every (kind, type, call) class, thorough all positions. The DB is used on after the fault (writes, transactions, CompactRange, scan + Gets every 10 batches), closed, and a Clone is reopened without faults. Oracles at every read and after the reopen: contents = exactly the batches whose markers are present, applied in issue order; present only batches that were issued; every batch whose call returned nil present (in the run and after the reopen); reads may fail but never return a value that disagrees; every call under a 20 s watchdog. One evaluation = one faulted run; non-trivial = at least one fault fired; distinct by fault plan. Part 2 (damaged data, default checksum options): one byte flipped in a table data block or a journal chunk of a settled closed DB: every Get returns the right value or an error, scans return only right pairs (all of them when no error is reported); journal damage may drop whole batches only. " + c08OptNote
+	c.Res.Rule = "per workload (80 marker batches incl. large-batch writes, explicit transactions - discarded after a failed Commit, as documented - and CompactRange; tiny buffers; background work settles between client calls so that operation order repeats): a fault-free run records every storage operation as (kind x file type x client call in progress), then the workload is re-run once per fault plan: the k-th operation of a (kind, type) fails, without effect or with effect (bytes written / file synced / created / removed / CURRENT set although an error is returned), singly, as a burst of 2-5 consecutive failures, or as a sampled pair, or combined with removes of one file type that keep failing; phase run = armed after Open, phase reopen = armed during a reopen of the populated DB. Quick takes the first, the last and a random position of every (kind, type, call) class, thorough all positions. The DB is used on after the fault (writes, transactions, CompactRange, scan + Gets every 10 batches), closed, and a Clone is reopened without faults. Oracles at every read and after the reopen: contents = exactly the batches whose markers are present, applied in issue order; present only batches that were issued; every batch whose call returned nil present (in the run and after the reopen); reads may fail but never return a value that disagrees; every call under a 20 s watchdog. One evaluation = one faulted run; non-trivial = at least one fault fired; distinct by fault plan. Before those: compactions retried after one failing table Sync on a three-level tree with deletion markers (contents = plain map, also after reopen), and concurrent writers whose merged group is hit by a journal Sync failing with effect (every write acknowledged before or after is there after Close and reopen). Part 2 (damaged data, default checksum options): one byte flipped in a table data block or a journal chunk of a settled closed DB: every Get returns the right value or an error, scans return only right pairs (all of them when no error is reported); journal damage may drop whole batches only. " + c08OptNote
 	if !crIsWorker() {
 		crIsolated(c, c08OnCrash)
 		return
@@ -720,7 +720,9 @@ func runC08(c *Ctx) {
 		c08Kinds = append(c08Kinds, stor.OpClose)
 	}
 	once := &crSigOnce{}
-	c08WriteTraces(c, c.Scale(200, 2000)) // write-path traces for the Lean model (c08lean.go)
+	c08WriteTraces(c, c.Scale(200, 2000))    // write-path traces for the Lean model (c08lean.go)
+	c08RetryCompaction(c, c.Scale(40, 600))  // compactions retried after a transient error (c08retry.go)
+	c08ConcurrentFaults(c, c.Scale(25, 400)) // a journal failure hitting a merged group (c08conc.go)
 	nwl := c.Scale(3, 10)
 	type job struct {
 		plan    *c08Plan
